@@ -20,6 +20,7 @@ _RXC = {k: re.compile(v, re.I) for k, v in RX.items()}
 ANCHOR_RULES = ["path1", "path2", "path3", "subdomain", "path4"]
 
 LONG_LENGTHS = [73, 74, 75, 76, 147, 148, 149, 150, 221, 222, 223, 296, 297, 1000]
+HUGE_LENGTHS = [1023, 1024, 1025, 1500, 2047, 2048, 2049, 2083, 2500, 3000, 4095, 4096, 4097, 6000, 8192, 8193]
 
 
 def rules_ok(lru):
@@ -72,6 +73,8 @@ def g_long_stem(rng, families=(b"a", b"b")):
     n = rng.choice(LONG_LENGTHS)
     if n == 1000 and rng.random() < 0.7:
         n = rng.choice(LONG_LENGTHS[:-1])
+    elif rng.random() < 0.05:
+        n = rng.choice(HUGE_LENGTHS)  # kilobytes: a query string, a data: URL
     fam = rng.choice(families)
     return b"p:" + fam * (n - 4) + bytes([rng.choice(b"ABC")]) + b"|"
 
@@ -366,7 +369,11 @@ def gen_history(rng, cfg, pool, text, nops, weights=None, allow_uncrawled_pages=
             ops.append({"op": "mvp", "prefix": p, "of": of, "with_src": rng.random() < 0.7, "alias": rng.random() < 0.3})
             m.we[p] = m.we[of]
         elif k == "rule":
-            a = some_prefix(rng, pick(), 2, 4)
+            if m.rules and rng.random() < 0.25:
+                # an anchor that already has (or had) a rule: its regexp is replaced (usually by another one)
+                a = rng.choice(sorted(m.rules))
+            else:
+                a = some_prefix(rng, pick(), 2, 4)
             if not a.startswith(b"s:"):
                 continue
             r = rng.choice(ANCHOR_RULES)
